@@ -26,10 +26,12 @@ variable {α β : Type}
 /-! ### AllCalls -/
 
 /-- What a call can answer, as far as the shape of later calls depends on it: a temp file is
-created *inside* the directory asked for.  Everything else is unconstrained. -/
+created *inside* the directory asked for; the clock answers a `u128`.  Everything else is
+unconstrained. -/
 def Answer : Call → Ret → Prop
   | .mkTemp dir, .path p => ∃ n, p = dir ++ [n]
   | .readDir dir, .entries es => ∀ e ∈ es, dir <+: e.1
+  | .now, .nat t => t ≤ timeMax
   | _, _ => True
 
 theorem FS.below_prefix (fs : FS) (p q : Path) (h : q ∈ fs.below p) : p <+: q := by
@@ -54,7 +56,12 @@ theorem answer_exec (env : Env) (fs : FS) (c : Call) : Answer c (exec env fs c).
       obtain ⟨q, hq, rfl⟩ := List.mem_map.mp he
       exact FS.below_prefix fs dir q (List.mem_filter.mp hq).1
     · trivial
+  | now =>
+    simp only [exec, Answer]
+    exact Nat.le_of_lt_succ (Nat.mod_lt _ (Nat.succ_pos _))
   | _ => simp only [Answer]
+
+theorem now_answer {t : Nat} (h : Answer Call.now (Ret.nat t)) : t ≤ timeMax := h
 
 theorem answer_err (c : Call) (e : EK) : Answer c (.err e) := by
   cases c <;> trivial
